@@ -6,7 +6,7 @@
   (b) `IoRef`     : reference semantics of a *binary, unbuffered* Python io file
                     (`io.FileIO` on a regular file) as a pure state machine.
   (c) `Bio`       : `io.BytesIO` (bytes, pos) — the object shared by all handles of a MemoryFS file,
-      `MemFile`   : `_MemoryFile` of `fs/memoryfs.py`, line by line, incl. `_seek_lock`.
+      `MemFile`   : `_MemoryFile` of `fs/memoryfs.py` (tree at 85c55f3), line by line, incl. `_seek_lock`.
   (d) `copyFileData` : `fs.tools.copy_file_data` over an abstract reader with short reads.
 
   No Mathlib imports (the driver links this module).
@@ -414,8 +414,32 @@ def seekLock (s : MemState) (body : Bio → Bio × Out) : MemState × Out :=
   if out.isErr then ({ s with bio := b2 }, out)
   else ({ s with bio := b2, pos := b2.pos }, out)
 
-def step (fl : Flags) (s : MemState) (op : Op) : MemState × Out :=
-  match op with
+/-- `next()` / `__next__`: mode check, then `next(self._bytes_io)` under the seek lock
+(the closed check is in `step`) -/
+def nextStep (fl : Flags) (s : MemState) : MemState × Out :=
+  if !fl.reading then (s, .err .notPermitted)
+  else seekLock s fun b =>
+    let (b', d) := b.readline none
+    if d.isEmpty then (b', .err .stopIteration) else (b', .bytes d)
+
+/-- `list(f)`: `_MemoryFile` no longer overrides `__iter__`, so `IOBase.__iter__` returns the
+file itself and the lines come from `__next__` until StopIteration; any other exception
+propagates. `acc` = the lines so far, reversed. -/
+def iterLoop (fl : Flags) : Nat → MemState → List Bytes → MemState × Out
+  | 0, s, acc => (s, .lines acc.reverse)
+  | fuel + 1, s, acc =>
+    match nextStep fl s with
+    | (s', .bytes d) => iterLoop fl fuel s' (d :: acc)
+    | (s', .err .stopIteration) => (s', .lines acc.reverse)
+    | (s', o) => (s', o)
+
+/-- every I/O method starts with `self._checkClosed()`; `close()` on a closed file does nothing -/
+def stepClosed (s : MemState) : Op → MemState × Out
+  | .close => (s, .none)
+  | _ => (s, .err .closed)
+
+/-- a call on a handle that is not closed -/
+def stepOpen (fl : Flags) (s : MemState) : Op → MemState × Out
   | .read n =>
     if !fl.reading then (s, .err .notPermitted)
     else seekLock s fun b => let (b', d) := b.read n; (b', .bytes d)
@@ -432,35 +456,34 @@ def step (fl : Flags) (s : MemState) (op : Op) : MemState × Out :=
   | .readlines =>
     if !fl.reading then (s, .err .notPermitted)
     else seekLock s fun b => let (b', l) := b.readlines; (b', .lines l)
-  | .iter =>
-    -- __iter__: `self._bytes_io.seek(self.pos); for line in self._bytes_io: yield line`
-    -- (no mode check, no lock, `self.pos` is not written back)
-    let b1 := s.bio.seekSet s.pos
-    let (b2, l) := b1.readlines
-    ({ s with bio := b2 }, .lines l)
-  | .next =>
-    -- next(): `with self._seek_lock(): return next(self._bytes_io)` (no mode check)
-    seekLock s fun b =>
-      let (b', d) := b.readline none
-      if d.isEmpty then (b', .err .stopIteration) else (b', .bytes d)
+  | .iter => iterLoop fl (s.bio.bytes.length - s.pos + 1) s []
+  | .next => nextStep fl s
   | .seek off whence =>
-    seekLock s fun b => b.seek off whence
+    seekLock s fun b =>
+      -- _whence = int(whence); for SEEK_CUR / SEEK_END a negative target is a ValueError
+      if whence = 1 then
+        -- base = self.pos
+        if Int.ofNat s.pos + off < 0 then (b, .err .invalid) else b.seek off 1
+      else if whence = 2 then
+        -- base = self._dir_entry.size  (which seeks the shared BytesIO to its end)
+        let b' := b.seekEnd
+        if Int.ofNat b'.pos + off < 0 then (b', .err .invalid) else b'.seek off 2
+      else b.seek off whence
   | .tell => (s, .nat s.pos)
   | .truncate size =>
     if !fl.writing then (s, .err .notPermitted)
     else seekLock s fun b =>
       let pos := b.pos                                   -- pos = self._bytes_io.tell()
-      match b.truncate size with                         -- new_size = self._bytes_io.truncate(size)
+      -- if size is None: size = pos
+      let size' : Int := match size with | none => Int.ofNat pos | some z => z
+      match b.truncate (some size') with                 -- new_size = self._bytes_io.truncate(size)
       | (b, .err e) => (b, .err e)
       | (b1, newSize) =>
-        match size with
-        | none => (b1, newSize)
-        | some z =>
-          let b2 := b1.seekEnd                           -- file_size = seek(0, SEEK_END)
-          let fileSize := b2.pos
-          let b3 := if fileSize < z.toNat then b2.write (zeros (z.toNat - fileSize)) else b2
-          let b4 := b3.seekSet pos                       -- seek(pos)
-          (b4, if z.toNat = 0 then newSize else .nat z.toNat)   -- return size or new_size
+        let b2 := b1.seekEnd                             -- file_size = seek(0, SEEK_END)
+        let fileSize := b2.pos
+        let b3 := if fileSize < size'.toNat then b2.write (zeros (size'.toNat - fileSize)) else b2
+        let b4 := b3.seekSet pos                         -- seek(pos)
+        (b4, if size'.toNat = 0 then newSize else .nat size'.toNat)   -- return size or new_size
   | .write d =>
     if !fl.writing then (s, .err .notPermitted)
     else seekLock s fun b =>
@@ -472,7 +495,10 @@ def step (fl : Flags) (s : MemState) (op : Op) : MemState × Out :=
       let b := if fl.appending then b.seekEnd else b
       (ls.foldl Bio.write b, .none)
   | .flush => (s, .none)
-  | .close => if !s.closed then ({ s with closed := true }, .none) else (s, .none)
+  | .close => ({ s with closed := true }, .none)
+
+def step (fl : Flags) (s : MemState) (op : Op) : MemState × Out :=
+  if s.closed then stepClosed s op else stepOpen fl s op
 
 def obsTell (s : MemState) : Option Nat := if s.closed then none else some s.pos
 
@@ -494,38 +520,31 @@ def run (mode : Str) (existing : Option Bytes) (ops : List Op) :
 
 end MemFile
 
-/-- The (state, call) classes in which the current `_MemoryFile` is known to differ from
-`io.FileIO` (see design.d/C16.md). -/
+/-- The (state, call) classes in which `_MemoryFile` still differs from `io.FileIO`
+(see design.d/C16.md).  The first two are *tolerances*: the call is vacuous and rejecting it is
+what the property text asks of a handle without permission / a closed handle; `io.FileIO` lets it
+through only because `IOBase.readline`/`writelines` never reach the raw file.  The third is an
+open finding: the position (and so the data a following read returns) differs. -/
 inductive Dev where
-  | useAfterClose        -- F1: any call but close() on a closed handle
-  | seekClamp            -- F2: relative seek to a negative offset is clamped to 0
-  | truncatePastEof      -- F3: truncate() with the position beyond EOF does not extend
-  | iteration            -- F4: __iter__ keeps the position / iteration ignores the mode
-  | readlineZeroNoRead   -- T0: readline(0) on a write-only handle is rejected (stricter)
-  | writelinesEmptyRO    -- T1: writelines([]) on a read-only handle is rejected (stricter)
-  | appendEmptyWrite     -- T2: zero-length write in append mode moves the position to EOF
+  | readlineZero         -- T0: readline(0) on a closed or unreadable handle is rejected (io: b"")
+  | writelinesEmptyRO    -- T1: writelines([]) on a read-only handle is rejected (io: accepted)
+  | appendEmptyWrite     -- F5: zero-length write in append mode moves the position to EOF
   deriving DecidableEq, Repr, Inhabited
 
 def devClass (fl : Flags) (s : IoState) (op : Op) : Option Dev :=
   match op with
-  | .close => none
-  | op =>
-    if s.closed then some .useAfterClose
-    else match op with
-     | .seek off 1 => if Int.ofNat s.pos + off < 0 then some .seekClamp else none
-     | .seek off 2 => if Int.ofNat s.bytes.length + off < 0 then some .seekClamp else none
-     | .truncate none => if s.bytes.length < s.pos then some .truncatePastEof else none
-     | .iter => if !fl.reading || decide (s.pos < s.bytes.length) then some .iteration else none
-     | .next => if !fl.reading then some .iteration else none
-     | .readline (some z) => if z == 0 && !fl.reading then some .readlineZeroNoRead else none
-     | .writelines ls =>
-       if ls.isEmpty && !fl.writing then some .writelinesEmptyRO
-       else if fl.writing && fl.appending && ls.all (·.isEmpty) && s.pos != s.bytes.length
-       then some .appendEmptyWrite else none
-     | .write d =>
-       if fl.writing && fl.appending && d.isEmpty && s.pos != s.bytes.length
-       then some .appendEmptyWrite else none
-     | _ => none
+  | .readline (some z) =>
+    if z == 0 && (s.closed || !fl.reading) then some .readlineZero else none
+  | .writelines ls =>
+    if s.closed then none
+    else if ls.isEmpty && !fl.writing then some .writelinesEmptyRO
+    else if fl.writing && fl.appending && ls.all (·.isEmpty) && s.pos != s.bytes.length
+    then some .appendEmptyWrite else none
+  | .write d =>
+    if s.closed then none
+    else if fl.writing && fl.appending && d.isEmpty && s.pos != s.bytes.length
+    then some .appendEmptyWrite else none
+  | _ => none
 
 /-- the hypothesis of `memfile_refines_ioref_partial` -/
 def deviates (fl : Flags) (s : IoState) (op : Op) : Bool := (devClass fl s op).isSome
@@ -558,16 +577,21 @@ def Reader.read (r : Reader) (chunk : Int) : Bytes × Reader :=
   (r.data.take k, ⟨r.data.drop k, r.oracle.tail⟩)
 
 /-- `for chunk in iter(lambda: read(n) or None, None): write(chunk)`; `out` is what has been
-written so far.  `fuel` bounds the number of iterations (`data.length + 1` always suffices when
-`chunk ≠ 0`; with `chunk = 0` the first read is empty and the loop stops at once). -/
+written so far.  `fuel` bounds the number of iterations (`data.length + 1` always suffices when `chunk ≠ 0`,
+which `effChunk` guarantees; a reader asked for 0 bytes would return `b""` and stop the loop). -/
 def copyLoop (chunk : Int) : Nat → Reader → Bytes → Bytes
   | 0, _, out => out
   | fuel + 1, r, out =>
     let (d, r') := r.read chunk
     if d.isEmpty then out else copyLoop chunk fuel r' (out ++ d)
 
-def copyFileData (chunk : Int) (data : Bytes) (shortReads : List Nat) : Bytes :=
-  copyLoop chunk (data.length + 1) ⟨data, shortReads⟩ []
+/-- `_chunk_size = chunk_size or 1024 * 1024`: `None` and `0` mean the 1 MiB default -/
+def effChunk : Option Int → Int
+  | none => 1048576
+  | some c => if c = 0 then 1048576 else c
+
+def copyFileData (chunk : Option Int) (data : Bytes) (shortReads : List Nat) : Bytes :=
+  copyLoop (effChunk chunk) (data.length + 1) ⟨data, shortReads⟩ []
 
 /-- the list of chunks handed to `write` (for the correspondence) -/
 def copyChunks (chunk : Int) : Nat → Reader → List Bytes
@@ -606,22 +630,19 @@ inductive WritePath where
   | pieces (cuts : List Nat)                     -- one handle, write() piece by piece
   | writelines (cuts : List Nat)                 -- one handle, writelines(pieces)
   | append (k : Nat)                             -- writebytes(data[:k]); appendbytes(data[k:])
-  | upload (chunk : Int) (shortReads : List Nat) -- upload / writefile / copy / move: copy_file_data into "wb"
+  | upload (chunk : Option Int) (shortReads : List Nat) -- upload / writefile / copy / move: copy_file_data into "wb"
   deriving Repr
 
 inductive ReadPath where
   | readbytes                  -- read()
   | readall                    -- readall()
-  | readLoop (n : Int)         -- read(n) until b"" (download(chunk), hash = 2^20, user loops)
+  | readLoop (n : Int)         -- read(n) until b"" (hash = 2^20, user loops)
+  | download (chunk : Option Int)  -- download(chunk_size): copy_file_data's reading side
   | readintoLoop (k : Nat)     -- readinto(bytearray(k)) until 0
   | readlineLoop               -- readline() until b""
   | nextLoop                   -- for line in f
   | readlines                  -- b"".join(f.readlines())
   deriving Repr
-
-def WritePath.valid : WritePath → Bool
-  | .upload chunk _ => chunk != 0
-  | _ => true
 
 def ReadPath.valid : ReadPath → Bool
   | .readLoop n => n != 0
@@ -640,7 +661,7 @@ def WritePath.store (w : WritePath) (existing : Option Bytes) (data : Bytes) : O
     | some first => finalOf (IoRef.run modeA (some first) [.write (data.drop k), .close])
   | .upload chunk sr =>
     finalOf (IoRef.run modeW existing
-      ((copyChunks chunk (data.length + 1) ⟨data, sr⟩).map .write ++ [.close]))
+      ((copyChunks (effChunk chunk) (data.length + 1) ⟨data, sr⟩).map .write ++ [.close]))
 
 /-- the bytes a reader obtains from a file holding `file` -/
 def ReadPath.fetch (r : ReadPath) (file : Bytes) : Option Bytes :=
@@ -652,6 +673,7 @@ def ReadPath.fetch (r : ReadPath) (file : Bytes) : Option Bytes :=
     | .readbytes => match IoRef.step fl s (.read none) with | (_, .bytes d) => some d | _ => none
     | .readall => match IoRef.step fl s .readall with | (_, .bytes d) => some d | _ => none
     | .readLoop n => some (drainWith fl (.read (some n)) (file.length + 1) s).flatten
+    | .download chunk => some (drainWith fl (.read (some (effChunk chunk))) (file.length + 1) s).flatten
     | .readintoLoop k => some (drainWith fl (.readinto k) (file.length + 1) s).flatten
     | .readlineLoop => some (drainWith fl (.readline none) (file.length + 1) s).flatten
     | .nextLoop => some (drainWith fl .next (file.length + 1) s).flatten
